@@ -269,7 +269,8 @@ fn run_stream(t: &[&str]) -> (String, Option<String>) {
             rows.join(",")
         }
     });
-    let expect = if err { None } else { Some(rows_walk.join(",")) };
+    // a stream without even a schema message cannot be opened (`StreamReader::try_new` errors)
+    let expect = if err || msgs.is_empty() { None } else { Some(rows_walk.join(",")) };
     let bad = match expect {
         Some(e) => real != e,
         None => !real.contains("ERR"),
@@ -1165,6 +1166,296 @@ fn run_probe(name: &str) -> String {
     }
 }
 
+
+// ------------------------------------------------------------------------------------ whole arrays (C09 dump grammar)
+
+fn ty_str(dt: &DataType) -> Option<String> {
+    let nb = |f: &Field| if f.is_nullable() { '?' } else { '!' };
+    Some(match dt {
+        DataType::Boolean => "b".into(),
+        DataType::Utf8 => "t".into(),
+        DataType::LargeUtf8 => "T".into(),
+        DataType::Binary => "y".into(),
+        DataType::LargeBinary => "Y".into(),
+        DataType::FixedSizeBinary(n) => format!("x{}", n),
+        DataType::List(f) => format!("l{}<{}>", nb(f), ty_str(f.data_type())?),
+        DataType::LargeList(f) => format!("L{}<{}>", nb(f), ty_str(f.data_type())?),
+        DataType::FixedSizeList(f, k) => format!("f{}{}<{}>", k, nb(f), ty_str(f.data_type())?),
+        DataType::Struct(fs) => {
+            let mut v = vec![];
+            for f in fs.iter() {
+                v.push(format!("{}{}", nb(f), ty_str(f.data_type())?));
+            }
+            format!("s<{}>", v.join(","))
+        }
+        DataType::Dictionary(k, v) => {
+            let (kw, sg) = match k.as_ref() {
+                DataType::Int8 => (1, 's'),
+                DataType::Int16 => (2, 's'),
+                DataType::Int32 => (4, 's'),
+                DataType::Int64 => (8, 's'),
+                DataType::UInt8 => (1, 'u'),
+                DataType::UInt16 => (2, 'u'),
+                DataType::UInt32 => (4, 'u'),
+                DataType::UInt64 => (8, 'u'),
+                _ => return None,
+            };
+            format!("d{}{}<{}>", kw, sg, ty_str(v)?)
+        }
+        other => match prim_width(other) {
+            Some(w) if !matches!(other, DataType::FixedSizeBinary(_)) => format!("p{}", w),
+            _ => return None,
+        },
+    })
+}
+
+fn hex_e(b: &[u8]) -> String {
+    if b.is_empty() { "e".into() } else { hex(b) }
+}
+
+/// dump of a real `ArrayData`: `A(type;len;offset;nulls;bufs;children)`, nulls = `-` | `hex@bitoffset:nullcount`
+fn dump_data(d: &ArrayData) -> Option<String> {
+    let ty = ty_str(d.data_type())?;
+    let nulls = match d.nulls() {
+        None => "-".to_string(),
+        Some(n) => format!("{}@{}:{}", hex_e(n.buffer().as_slice()), n.offset(), n.null_count()),
+    };
+    let bufs = if d.buffers().is_empty() { "-".to_string() } else { d.buffers().iter().map(|b| hex_e(b.as_slice())).collect::<Vec<_>>().join("|") };
+    let mut kids = String::new();
+    for c in d.child_data() {
+        kids.push_str(&dump_data(c)?);
+    }
+    Some(format!("A({};{};{};{};{};{})", ty, d.len(), d.offset(), nulls, bufs, kids))
+}
+
+struct Cur<'a> {
+    s: &'a [u8],
+    i: usize,
+}
+impl<'a> Cur<'a> {
+    fn peek(&self) -> u8 {
+        self.s[self.i]
+    }
+    fn expect(&mut self, c: u8) {
+        assert_eq!(self.s[self.i], c);
+        self.i += 1;
+    }
+    fn num(&mut self) -> usize {
+        let st = self.i;
+        while self.i < self.s.len() && self.s[self.i].is_ascii_digit() {
+            self.i += 1;
+        }
+        std::str::from_utf8(&self.s[st..self.i]).unwrap().parse().unwrap()
+    }
+    fn until(&mut self, c: u8) -> &'a str {
+        let st = self.i;
+        while self.s[self.i] != c {
+            self.i += 1;
+        }
+        std::str::from_utf8(&self.s[st..self.i]).unwrap()
+    }
+}
+
+fn parse_dt(c: &mut Cur) -> DataType {
+    let nbf = |c: &mut Cur| {
+        let b = c.peek() == b'?';
+        c.i += 1;
+        b
+    };
+    let ch = c.peek();
+    c.i += 1;
+    match ch {
+        b'b' => DataType::Boolean,
+        b't' => DataType::Utf8,
+        b'T' => DataType::LargeUtf8,
+        b'y' => DataType::Binary,
+        b'Y' => DataType::LargeBinary,
+        b'x' => DataType::FixedSizeBinary(c.num() as i32),
+        b'p' => match c.num() {
+            1 => DataType::Int8,
+            2 => DataType::Int16,
+            4 => DataType::Int32,
+            8 => DataType::Int64,
+            16 => DataType::Interval(IntervalUnit::MonthDayNano),
+            _ => DataType::Decimal256(76, 0),
+        },
+        b'l' | b'L' => {
+            let n = nbf(c);
+            c.expect(b'<');
+            let t = parse_dt(c);
+            c.expect(b'>');
+            let f = Arc::new(Field::new("item", t, n));
+            if ch == b'l' { DataType::List(f) } else { DataType::LargeList(f) }
+        }
+        b'f' => {
+            let k = c.num();
+            let n = nbf(c);
+            c.expect(b'<');
+            let t = parse_dt(c);
+            c.expect(b'>');
+            DataType::FixedSizeList(Arc::new(Field::new("item", t, n)), k as i32)
+        }
+        b's' => {
+            c.expect(b'<');
+            let mut fs = vec![];
+            while c.peek() != b'>' {
+                if c.peek() == b',' {
+                    c.i += 1;
+                }
+                let n = nbf(c);
+                let t = parse_dt(c);
+                fs.push(Field::new(format!("f{}", fs.len()), t, n));
+            }
+            c.expect(b'>');
+            DataType::Struct(fs.into())
+        }
+        b'd' => {
+            let kw = c.num();
+            let sg = c.peek() == b's';
+            c.i += 1;
+            c.expect(b'<');
+            let t = parse_dt(c);
+            c.expect(b'>');
+            let k = match (kw, sg) {
+                (1, true) => DataType::Int8,
+                (2, true) => DataType::Int16,
+                (4, true) => DataType::Int32,
+                (8, true) => DataType::Int64,
+                (1, false) => DataType::UInt8,
+                (2, false) => DataType::UInt16,
+                (4, false) => DataType::UInt32,
+                _ => DataType::UInt64,
+            };
+            DataType::Dictionary(Box::new(k), Box::new(t))
+        }
+        _ => panic!("type"),
+    }
+}
+
+fn unhex_e(s: &str) -> Vec<u8> {
+    if s == "e" { vec![] } else { unhex(s) }
+}
+
+fn parse_data(c: &mut Cur) -> ArrayData {
+    c.expect(b'A');
+    c.expect(b'(');
+    let dt = parse_dt(c);
+    c.expect(b';');
+    let len = c.num();
+    c.expect(b';');
+    let offset = c.num();
+    c.expect(b';');
+    let ns = c.until(b';');
+    c.expect(b';');
+    let bs = c.until(b';');
+    c.expect(b';');
+    let nulls = if ns == "-" {
+        None
+    } else {
+        let (h, rest) = ns.split_once('@').unwrap();
+        let (o, _) = rest.split_once(':').unwrap();
+        Some(NullBuffer::new(BooleanBuffer::new(Buffer::from(unhex_e(h).as_slice()), o.parse().unwrap(), len)))
+    };
+    let bufs: Vec<Buffer> = if bs == "-" { vec![] } else { bs.split('|').map(|b| Buffer::from(unhex_e(b).as_slice())).collect() };
+    let mut kids = vec![];
+    while c.peek() == b'A' {
+        kids.push(parse_data(c));
+    }
+    c.expect(b')');
+    unsafe { ArrayData::builder(dt).len(len).offset(offset).nulls(nulls).buffers(bufs).child_data(kids).build_unchecked() }
+}
+
+/// field nodes and body buffers the real writer produces for one column
+fn run_warr(t: &[&str]) -> String {
+    let mut c = Cur { s: t[2].as_bytes(), i: 0 };
+    let data = parse_data(&mut c);
+    assert_eq!(c.i, t[2].len());
+    let col = make_array(data);
+    // the writer works on `array.to_data()`: it must be the array described by the case line
+    if dump_data(&col.to_data()).as_deref() != Some(t[2]) {
+        return "DUMP-UNSTABLE".into();
+    }
+    let schema = Arc::new(Schema::new(vec![Field::new("c", col.data_type().clone(), true)]));
+    let batch = RecordBatch::try_new(schema.clone(), vec![col]).unwrap();
+    let mut w = StreamWriter::try_new_with_options(Vec::new(), &schema, opts(8, false, 5)).unwrap();
+    w.write(&batch).unwrap();
+    w.finish().unwrap();
+    let bytes = w.into_inner().unwrap();
+    let (msgs, _, err) = walk(&bytes);
+    assert!(!err);
+    let last = msgs
+        .iter()
+        .rev()
+        .find(|m| arrow_ipc::root_as_message(&bytes[m.meta.0..m.meta.0 + m.meta.1]).unwrap().header_type() == MessageHeader::RecordBatch)
+        .unwrap();
+    let m = arrow_ipc::root_as_message(&bytes[last.meta.0..last.meta.0 + last.meta.1]).unwrap();
+    let rb = m.header_as_record_batch().unwrap();
+    let body = &bytes[last.body.0..last.body.0 + last.body.1];
+    let nodes: Vec<String> = rb.nodes().unwrap().iter().map(|n| format!("{}:{}", n.length(), n.null_count())).collect();
+    let bufs: Vec<String> = rb.buffers().unwrap().iter().map(|b| hex_e(&body[b.offset() as usize..(b.offset() + b.length()) as usize])).collect();
+    format!("nodes={} bufs={}", nodes.join(","), if bufs.is_empty() { "-".to_string() } else { bufs.join("|") })
+}
+
+/// FileWriter: a write that fails on the second dictionary column after the first column's
+/// delta was already recorded in the tracker; then keep writing and read the file back
+fn run_after_error(mode: &str) -> String {
+    let dt = DataType::Dictionary(Box::new(DataType::Int8), Box::new(DataType::Int32));
+    let schema = Arc::new(Schema::new(vec![Field::new("a", dt.clone(), true), Field::new("b", dt, true)]));
+    let o = opts(8, false, 5).with_dictionary_handling(if mode == "delta" { DictionaryHandling::Delta } else { DictionaryHandling::Resend });
+    let col = |vals: Vec<i32>, keys: Vec<i8>| -> ArrayRef { Arc::new(DictionaryArray::<Int8Type>::try_new(Int8Array::from(keys), Arc::new(Int32Array::from(vals))).unwrap()) };
+    let b0 = RecordBatch::try_new(schema.clone(), vec![col(vec![1, 2], vec![0, 1]), col(vec![5], vec![0, 0])]).unwrap();
+    // column a extended (delta), column b replaced (error)
+    let b1 = RecordBatch::try_new(schema.clone(), vec![col(vec![1, 2, 3], vec![2, 2]), col(vec![6], vec![0, 0])]).unwrap();
+    // both columns consistent with what the tracker now believes was written
+    let b2 = RecordBatch::try_new(schema.clone(), vec![col(vec![1, 2, 3], vec![2, 0]), col(vec![5], vec![0, 0])]).unwrap();
+    let mut w = FileWriter::try_new_with_options(Vec::new(), &schema, o).unwrap();
+    let r0 = w.write(&b0).is_ok();
+    let r1 = w.write(&b1).is_ok();
+    let r2 = w.write(&b2).is_ok();
+    let fin = w.finish().is_ok();
+    let bytes = w.into_inner().unwrap();
+    let mut out = format!("w0={} w1={} w2={} fin={}", r0, r1, r2, fin);
+    let accepted: Vec<&RecordBatch> = [(r0, &b0), (r1, &b1), (r2, &b2)].iter().filter(|x| x.0).map(|x| x.1).collect();
+    match FileReader::try_new(Cursor::new(bytes), None) {
+        Err(e) => out.push_str(&format!(" open={}", err_class(&e))),
+        Ok(rd) => {
+            let mut i = 0;
+            for b in rd {
+                match b {
+                    Err(e) => {
+                        out.push_str(&format!(" read{}={}", i, err_class(&e)));
+                        break;
+                    }
+                    Ok(b) => {
+                        let exp: Vec<String> = accepted.get(i).map(|a| a.columns().iter().map(dict_col_values_any).collect()).unwrap_or_default();
+                        let got: Vec<String> = b.columns().iter().map(dict_col_values_any).collect();
+                        out.push_str(&format!(" read{}={}", i, if exp == got { "same".to_string() } else { format!("WRONG({})", got.join("+")) }));
+                    }
+                }
+                i += 1;
+            }
+            out.push_str(&format!(" batches={}/{}", i, accepted.len()));
+        }
+    }
+    out
+}
+
+fn dict_col_values_any(col: &ArrayRef) -> String {
+    let d = col.as_dictionary::<Int8Type>();
+    let vals = d.values().as_primitive::<Int32Type>();
+    let v: Vec<String> = (0..d.len())
+        .map(|i| {
+            if d.is_null(i) {
+                "n".to_string()
+            } else {
+                let k = d.keys().value(i) as usize;
+                if k < vals.len() { vals.value(k).to_string() } else { format!("oob{}", k) }
+            }
+        })
+        .collect();
+    dots(&v)
+}
+
 // ------------------------------------------------------------------------------------ dispatch
 
 fn run_case(line: &str) -> (String, Option<String>, String) {
@@ -1196,6 +1487,13 @@ fn run_case(line: &str) -> (String, Option<String>, String) {
             (a, o, String::new())
         }
         "dict" => (guarded(|| run_dict(&t)), None, String::new()),
+        "warr" => (guarded(|| run_warr(&t)), None, String::new()),
+        "probe" if t[2].starts_with("file-continue-after-error") => {
+            let a = guarded(|| run_after_error(if t[2].ends_with("delta") { "delta" } else { "resend" }));
+            let good = a.contains("w1=false") && !a.contains("WRONG") && !a.contains("ERR") && (a.ends_with("batches=2/2") || a.ends_with("batches=1/1"));
+            let o = if good { None } else { Some(format!("probe {}: {}", t[2], a)) };
+            (if good { "ok".into() } else { a.replace(' ', ",") }, o, format!("kf:{}", t[2]))
+        }
         "probe" => {
             let a = guarded(|| run_probe(t[2]));
             let o = if a == "ok" { None } else { Some(format!("probe {}: {}", t[2], a)) };
@@ -1326,8 +1624,52 @@ fn gen_hist(rng: &mut Rng, file: bool) -> String {
     if bs.is_empty() { "-".into() } else { bs.join(";") }
 }
 
+fn gen_supported_type(rng: &mut Rng, depth: usize) -> DataType {
+    let leaves = [
+        DataType::Boolean, DataType::Int8, DataType::Int16, DataType::Int32, DataType::Int64,
+        DataType::Interval(IntervalUnit::MonthDayNano), DataType::Utf8, DataType::LargeUtf8, DataType::Binary,
+        DataType::LargeBinary, DataType::FixedSizeBinary(3), DataType::FixedSizeBinary(0),
+    ];
+    if depth == 0 || rng.chance(1, 3) {
+        return rng.pick(&leaves).clone();
+    }
+    match rng.below(6) {
+        0 => DataType::List(Arc::new(Field::new("item", gen_supported_type(rng, depth - 1), true))),
+        1 => DataType::LargeList(Arc::new(Field::new("item", gen_supported_type(rng, depth - 1), true))),
+        2 => {
+            let k = rng.usize(4) as i32;
+            DataType::FixedSizeList(Arc::new(Field::new("item", gen_supported_type(rng, depth - 1), true)), k)
+        }
+        3 | 4 => {
+            let n = rng.usize(4);
+            DataType::Struct((0..n).map(|i| Field::new(format!("f{i}"), gen_supported_type(rng, depth - 1), true)).collect())
+        }
+        _ => {
+            let kt = rng.pick(&[DataType::Int8, DataType::Int16, DataType::Int32, DataType::Int64, DataType::UInt8, DataType::UInt16, DataType::UInt32, DataType::UInt64]).clone();
+            let mut vt = gen_supported_type(rng, depth - 1);
+            while matches!(vt, DataType::Dictionary(_, _)) {
+                vt = rng.pick(&leaves).clone();
+            }
+            DataType::Dictionary(Box::new(kt), Box::new(vt))
+        }
+    }
+}
+
 fn gen_case(rng: &mut Rng) -> (String, String) {
     let aligns = [8usize, 16, 32, 64];
+    if rng.chance(1, 6) {
+        let depth = rng.usize(3);
+        let dt = gen_supported_type(rng, depth);
+        let rows = if rng.chance(1, 6) { 0 } else { 1 + rng.usize(20) };
+        let (pre, post) = if rng.chance(2, 3) { (rng.usize(11), rng.usize(4)) } else { (0, 0) };
+        let a = gen_array(rng, &dt, pre + rows + post, &mut Ctx { pool: HashMap::new(), evo: 3, batch: 0 }, "w");
+        let a = if pre + post > 0 { a.slice(pre, rows) } else { a };
+        let head: String = dt.to_string().chars().take_while(|c| c.is_alphanumeric()).collect();
+        return (
+            format!("C04 warr {}", dump_data(&a.to_data()).unwrap()),
+            format!("op:warr wty:{} depth:{} {}", head, depth, if rows > 0 && pre > 0 { "nt" } else { "" }),
+        );
+    }
     match rng.below(20) {
         0 | 1 => {
             // byte arrays: monotone offsets not necessarily starting at 0
@@ -1376,7 +1718,7 @@ fn gen_case(rng: &mut Rng) -> (String, String) {
         }
         6 => {
             if rng.chance(1, 4) {
-                let name = *rng.pick(&["ree-v4", "ree-v5", "ree-empty-slice", "union-in-sliced-list-sparse", "union-in-sliced-list-dense", "union-in-list-unsliced"]);
+                let name = *rng.pick(&["ree-v4", "ree-v5", "ree-empty-slice", "union-in-sliced-list-sparse", "union-in-sliced-list-dense", "union-in-list-unsliced", "file-continue-after-error-delta", "file-continue-after-error-resend"]);
                 (format!("C04 probe {}", name), "op:probe".into())
             } else {
                 (format!("C04 allvalid {}", rng.usize(70)), "op:allvalid".into())
